@@ -190,9 +190,12 @@ package placement
 //@   props C13
 //@   requires m.storage != nil && p != nil
 //@   ensures [no-commit-inside] last("patchCommit") == old(last("patchCommit"))
+//@   ensures [accepted-means-every-write-succeeded] result == nil ==> ruleWriteFailed[0] == old(ruleWriteFailed[0])
+//@   loop 1 invariant ruleWriteFailed[0] == old(ruleWriteFailed[0])
+//@   loop 2 invariant ruleWriteFailed[0] == old(ruleWriteFailed[0])
 //@   option event savePatch
 //@   option assumeframe
-//@   modifies ghost kvhas, ghost kvval
+//@   modifies ghost kvhas, ghost kvval, ghost ruleWriteFailed
 
 //@ func (*ruleConfigPatch).commit
 //@   props C13
@@ -212,7 +215,7 @@ package placement
 //@   ensures [ok-order] result == nil ==> last("savePatch") > 0 && last("patchCommit") > last("savePatch")
 //@   at savePatch 1 assert [validated-first] err == nil && arg0 == patch.mut
 //@   at commit 1 assert [saved-first] err == nil && last("savePatch") > 0
-//@   modifies m.ruleList, m.ruleConfig.rules[*], m.ruleConfig.groups[*], all Rule.group, patch.mut.rules[*], patch.mut.groups[*], ghost kvhas, ghost kvval
+//@   modifies m.ruleList, m.ruleConfig.rules[*], m.ruleConfig.groups[*], all Rule.group, patch.mut.rules[*], patch.mut.groups[*], ghost kvhas, ghost kvval, ghost ruleWriteFailed
 
 // ---- the key-range index (ranges sorted by start key; range i covers [start_i, start_{i+1})) ----
 // The rules reported for a key are those of the range whose start is <= key and whose successor starts after key.
